@@ -1,0 +1,35 @@
+//! Verification hooks. Compiled only with the cargo feature `verif_hooks`.
+//!
+//! - io-trace: records `(file name, flush|sync_all|sync_data)` events of the
+//!   buffered files of the current thread.
+//! - layout-probe: exposes the slot size decision of the key and value files.
+use std::cell::RefCell;
+
+thread_local! {
+    static IO_TRACE: RefCell<Vec<(String, &'static str)>> = RefCell::new(Vec::new());
+}
+
+pub(crate) fn record_io(name: &str, kind: &'static str) {
+    IO_TRACE.with(|t| t.borrow_mut().push((name.to_string(), kind)));
+}
+
+/// drains the io trace of the current thread.
+pub fn take_io_trace() -> Vec<(String, &'static str)> {
+    IO_TRACE.with(|t| std::mem::take(&mut *t.borrow_mut()))
+}
+
+/// calls `func(value_len, encoded_size_field_len, piece_len, slot_size)` for every
+/// value length from `max_len` down to 0.
+pub fn sweep_value_slot_sizes(max_len: usize, func: &mut dyn FnMut(usize, u32, u32, u32)) {
+    super::inner::verif_sweep_value_slot_sizes(max_len, func)
+}
+
+/// calls `func(key_len, value_offset, next_offset, encoded_size_field_len, piece_len, slot_size)`
+/// for every key length of `key_lens` and every pair of `offsets`.
+pub fn sweep_key_slot_sizes(
+    key_lens: &mut dyn Iterator<Item = usize>,
+    offsets: &[u64],
+    func: &mut dyn FnMut(usize, u64, u64, u32, u32, u32),
+) {
+    super::inner::verif_sweep_key_slot_sizes::<super::DbBytes>(key_lens, offsets, func)
+}
